@@ -514,9 +514,13 @@ async fn run_thr_case(log: &mut Log, st: &mut Stats, ops: &[String], linked: boo
         if grant {
             ctl.grant();
         }
+        let t0 = std::time::Instant::now();
         loop {
             if let Some(r) = result.lock().unwrap().clone() {
                 return format!("done={r}");
+            }
+            if t0.elapsed() > std::time::Duration::from_secs(30) {
+                return "hang".into();
             }
             match ctl.wait_parked_timeout(std::time::Duration::from_millis(2)) {
                 Some(ThreadPhase::AtPoint(p)) if (first && p == "status.publish") || p == "tree.link" => return format!("at={p}"),
